@@ -5,6 +5,8 @@ CONSTANTS
   HashMutCodes = {0, 2, 4, 7}
   SigMutCodes = {0, 1, 3, 4}
   Depth = 2
+  Issuances <- PairsIssuances
+  Orders <- PairsOrders
 INIT HInit
 NEXT HNext
 INVARIANTS HistLaw
